@@ -66,6 +66,8 @@ class C16(Driver):
         for s in range(nsd):
             kind = r.choice(["pipe", "pipe", "unix", "unix", "cat", "emit", "emiterr", "killed"]) if mode == "single" else r.choice(["pipe", "unix"])
             sd = {"id": s, "kind": kind, "w": 10 + s}
+            if kind == "unix":
+                sd["accepted_writes"] = r.random() < 0.5      # which end of the connection the writer holds
             if kind in EMITS:
                 sd["emit"] = size() + r.choice([0, 1, 5000])
                 sd["exit"] = r.choice([0, 0, 1, 3, 255])
@@ -142,6 +144,11 @@ class C16(Driver):
             if kind == "killed":
                 tasks.append({"id": tid, "role": "k", "sd": s, "steps": []})
                 tid += 1
+        plan_by = None
+        if mode == "single" and r.random() < 0.3:
+            # a bystander child, spawned while the streams are open and alive until late: it must not keep
+            # anything of theirs open (descriptors are close-on-exec), so end-of-stream is not delayed by it
+            plan_by = {"spawn_ms": r.choice([0, 0, 1, 3]), "kill_ms": 200}
         if mode == "single" and r.random() < 0.35:
             # os/execute: spawn + wait in one call, with and without the :x flag, while the streams are busy
             for _ in range(r.randint(1, 2)):
@@ -150,7 +157,10 @@ class C16(Driver):
                               "code": r.choice([0, 0, 1, 3, 255]), "sig": sig, "x": r.random() < 0.5})
                 tid += 1
         flavour = "asan" if r.random() < 0.15 else "plain"
-        return {"property": "C16", "knobs": knobs, "mode": mode, "sds": sds, "tasks": tasks, "flavour": flavour}
+        plan = {"property": "C16", "knobs": knobs, "mode": mode, "sds": sds, "tasks": tasks, "flavour": flavour}
+        if plan_by:
+            plan["bystander"] = plan_by
+        return plan
 
     def gen_dgram(self, seed, r, knobs):
         """unix datagram socket: 1-3 sender fibers, one receiver; every datagram is a distinct slice of the
@@ -263,7 +273,10 @@ class C16(Driver):
             elif sd["kind"] == "unix":
                 A("  (let [name (string \"@jsim-\" (os/getpid) \"-%d\") srv (net/listen :unix name)]" % s)
                 A("    (def c (net/connect :unix name)) (def a (net/accept srv)) (:close srv)")
-                A("    (put H [:w %d] c) (put H [:r %d] a))" % (s, s))
+                if sd.get("accepted_writes"):
+                    A("    (put H [:w %d] a) (put H [:r %d] c))" % (s, s))
+                else:
+                    A("    (put H [:w %d] c) (put H [:r %d] a))" % (s, s))
             elif sd["kind"] == "cat":
                 A("  (let [p (os/spawn [\"sim-child\" \"C\"] :p {:in :pipe :out :pipe})] (put H [:p %d] p) (put H [:w %d] (p :in)) (put H [:r %d] (p :out)))" % (s, s, s))
             elif sd["kind"] == "killed":
@@ -362,7 +375,14 @@ class C16(Driver):
                 A("  (sim/ev :inv %d 0)" % T)
                 A("  (try (sim/ev :ret %d 0 :exit (os/proc-wait (H [:p %d]))) ([e] (sim/ev :ret %d 0 :err e)))" % (T, s, T))
             A("  (sim/ev :done %d))" % T)
-        A("(ev/go (fn [] (setup) %s))" % " ".join("(ev/go task%d)" % t["id"] for t in plan["tasks"]))
+        by = ""
+        if plan.get("bystander"):
+            b = plan["bystander"]
+            A("(defn bystander [] (ev/sleep %s) (def p (os/spawn [\"sim-child\" \"s100000\"] :p)) (sim/ev :by-spawned)"
+              % (b["spawn_ms"] / 1000.0))
+            A("  (ev/sleep %s) (os/proc-kill p true) (sim/ev :by-reaped))" % (b["kill_ms"] / 1000.0))
+            by = " (ev/go bystander)"
+        A("(ev/go (fn [] (setup)%s %s))" % (by, " ".join("(ev/go task%d)" % t["id"] for t in plan["tasks"])))
         return make_request(plan["knobs"], "\n".join(L))
 
     # ---------------- oracle ----------------
@@ -381,7 +401,9 @@ class C16(Driver):
         inv, ret = {}, {}
         segs = {}
         order = []
+        tof = {}
         for e in res.events:
+            tof[e.seq] = e.t
             if e.kind == "inv":
                 T, k = (int(x) for x in e.payload.split(" "))
                 inv[(T, k)] = e.seq
@@ -624,6 +646,24 @@ class C16(Driver):
                         V("C16/child/exit-status-misreported/kind=%s" % kind, "expected %r got %r" % (expect, got))
                 elif r_[1][0] == ":err":
                     V("C16/child/proc-wait-raised/kind=%s" % kind, " ".join(r_[1]))
+        # ---- end of stream is reported when the last writer closes, not when some unrelated process ends ----
+        # (simulated time only advances when every thread is blocked: a reader whose stream has ended is runnable)
+        for t in tasks.values():
+            if t["role"] != "r" or t["sd"] < 0 or sds[t["sd"]]["kind"] not in ("pipe", "unix"):
+                continue
+            wclose = [ret[(w["id"], 900)][0] for w in tasks.values() if w["role"] == "w" and w["sd"] == t["sd"] and (w["id"], 900) in ret]
+            if not wclose:
+                continue
+            wc = max(wclose)
+            for k, st in enumerate(t["steps"]):
+                r_ = ret.get((t["id"], k))
+                if r_ is None or (t["id"], k) not in inv or r_[1][0] not in (":nil", ":eof", ":drained"):
+                    continue
+                start = max(tof.get(inv[(t["id"], k)], 0), tof.get(wc, 0))
+                late = tof.get(r_[0], 0) - start
+                if r_[0] > wc and late > 50 * 1000000:
+                    V("C16/eof/end-of-stream-delivered-late/kind=%s" % sds[t["sd"]]["kind"],
+                      "task %d step %d saw the end of its stream %.1f ms after the writer had closed" % (t["id"], k, late / 1e6))
         # ---- a peer that closed while input for it was still unread: the other end sees a reset, not end of stream ----
         for t in tasks.values():
             if t["role"] != "w" or not t.get("ack") or (t["id"], 902) not in ret:
@@ -655,7 +695,10 @@ class C16(Driver):
                 elif r_ is not None and r_[1][0] != ":ok":
                     werr_any = True
             ack = ret[(t["id"], 902)]
-            if written_before > consumed_before and not werr_any and ack[0] > rclose and ack[1][0] == ":nil":
+            # (a spurious EAGAIN injected into the very recv that would have reported the reset leaves only the
+            # EPOLLERR notification, which Janet reports as end of stream: judged in runs without that fault kind)
+            spurious = any(f[0] in ("eagain_r", "eintr_r") for f in res.faults)
+            if written_before > consumed_before and not werr_any and ack[0] > rclose and ack[1][0] == ":nil" and not spurious:
                 V("C16/reset/peer-closed-with-unread-input-reported-as-clean-end-of-stream",
                   "%d bytes written and acknowledged, %d read before the peer closed; the writer's read returned nil" % (written_before, consumed_before))
         # ---- half-closed sockets: a write after net/shutdown fails, it neither succeeds nor hangs ----
